@@ -10,6 +10,9 @@ namespace EphVerif.Fetches
 /-- (T) the exponent clamp in the working tree is the `8` of `2^8 = 256` in the specification -/
 theorem expClamp_eq : expClamp = 8 := by decide
 
+/-- (T) the doubling starts from factor 1 -/
+theorem factorBase_eq : factorBase = 1 := by decide
+
 theorem effBase_pos (cfg : Cfg) : 1 ≤ effBase cfg := by
   unfold effBase; split <;> omega
 
@@ -23,7 +26,7 @@ theorem backoff_eq_spec (cfg : Cfg) (k : Nat) (hk : 1 ≤ k) :
   have hB := effBase_pos cfg
   unfold backoffSeconds C24Spec.delay C24Spec.cap
   have hk' : k > 0 := hk
-  simp only [hk', if_true, expClamp_eq]
+  simp only [hk', if_true, expClamp_eq, factorBase_eq, Nat.one_mul]
   generalize k - 1 = n
   by_cases hle : n ≤ 8
   · rw [Nat.min_eq_left hle]
